@@ -176,3 +176,6 @@ func DelaySets(keys []string, d int, yield func([]string) bool) {
 		}
 	}
 }
+
+// Yield yields the processor (busy-wait helper for real-time stress).
+func Yield() { runtime.Gosched() }
